@@ -14,6 +14,8 @@ import DateutilVerif.Base.Wire
 import DateutilVerif.Model.RelativeDelta
 import DateutilVerif.Spec.RelativeDelta
 import DateutilVerif.Generated.RDOps
+import DateutilVerif.Model.RDHistory
+import DateutilVerif.Model.RDScale
 
 namespace Ops.RelativeDelta
 open Wire RDM
@@ -208,6 +210,17 @@ def handleGen (op : String) (args : List String) : Option String :=
   match op with
   | "rdgen.mk" => (parseKw? args).map (fun k => Py.showR showRD (Gen.initKw k))
   | "rdgen.expr" => (evalRPNGen args []).map (Py.showR showRD)
+  | "rdgen.muldy" => do
+      let d ← parseRD? (args.take 18)
+      match (args.drop 18).mapM parseInt? with
+      | some [m, k] => pure (Py.showR showRD (Gen.mulDy d { m := m, k := k.toNat }))
+      | _ => none
+  | "rdgen.divp2" => do
+      let d ← parseRD? (args.take 18)
+      match (args.drop 18).mapM parseInt? with
+      | some [ng, k] => pure (Py.showR showRD (Gen.divPow2 d { neg := ng != 0, k := k.toNat }))
+      | _ => none
+  | "rdgen.normalized" => (parseRD? args).map (fun d => Py.showR showRD (Gen.normalized d))
   | "rdgen.bool" => (parseRD? args).map (fun d => Py.showR showBool (Gen.bool d))
   | "rdgen.hash" => (parseRD? args).map (fun d => Py.showR showHashList (Gen.hashKey d))
   | "rdgen.eq" => do
@@ -255,6 +268,38 @@ def handleGen (op : String) (args : List String) : Option String :=
         | r => Py.showR showRD r)
   | _ => none
 
+/-- the steps of `rd.hist`: `U` a use (any), `S <0..7> <int>` a relative attribute, `A <0..6> <int|->` an absolute
+    attribute, `D <wd|-> <n|->` the weekday attribute, `W <int>` the `weeks` setter -/
+def parseSteps? : List String → Option (List RDH.Step)
+  | [] => some []
+  | "U" :: rest => (parseSteps? rest).map (fun l => RDH.Step.use .bool :: l)
+  | "W" :: v :: rest => do
+      let v' ← parseInt? v
+      let l ← parseSteps? rest
+      pure (RDH.Step.set (.weeks v') :: l)
+  | "S" :: i :: v :: rest => do
+      let v' ← parseInt? v
+      let m ← match i with
+        | "0" => some (RDH.Mut.years v') | "1" => some (.months v') | "2" => some (.days v') | "3" => some (.leapdays v')
+        | "4" => some (.hours v') | "5" => some (.minutes v') | "6" => some (.seconds v') | "7" => some (.microseconds v')
+        | _ => none
+      let l ← parseSteps? rest
+      pure (RDH.Step.set m :: l)
+  | "A" :: i :: v :: rest => do
+      let v' ← parseOptInt? v
+      let m ← match i with
+        | "0" => some (RDH.Mut.year v') | "1" => some (.month v') | "2" => some (.day v') | "3" => some (.hour v')
+        | "4" => some (.minute v') | "5" => some (.second v') | "6" => some (.microsecond v')
+        | _ => none
+      let l ← parseSteps? rest
+      pure (RDH.Step.set m :: l)
+  | "D" :: w :: n :: rest => do
+      let w' ← parseOptInt? w
+      let n' ← parseOptInt? n
+      let l ← parseSteps? rest
+      pure (RDH.Step.set (.weekday (w'.map (fun x => (x, n')))) :: l)
+  | _ => none
+
 def handle (op : String) (args : List String) : Option String :=
   match handleGen op args with
   | some r => some r
@@ -264,6 +309,26 @@ def handle (op : String) (args : List String) : Option String :=
   | "rd.setmonths" => match args.mapM parseInt? with
     | some [m] => let r := Gen.setMonths {} m; some s!"ok {r.years} {r.months}"
     | _ => none
+  | "rd.muldy" => do
+      let d ← parseRD? (args.take 18)
+      match (args.drop 18).mapM parseInt? with
+      | some [m, k] => pure ("ok " ++ showRD (mulDyadic d m k.toNat))
+      | _ => none
+  | "rd.divp2" => do
+      let d ← parseRD? (args.take 18)
+      match (args.drop 18).mapM parseInt? with
+      | some [ng, k] => pure ("ok " ++ showRD (divPow2 d (ng != 0) k.toNat))
+      | _ => none
+  | "rd.normalized" => (parseRD? args).map (fun d => "ok " ++ showRD (normalizedInt d))
+  | "rd.weeks" => (parseRD? args).map (fun d => s!"ok {RDH.weeksOf d}")
+  | "rd.setweeks" => do
+      let d ← parseRD? (args.take 18)
+      let v ← (args.drop 18).head? >>= parseInt?
+      pure ("ok " ++ showRD (RDH.setWeeks d v))
+  | "rd.hist" => do
+      let d ← parseRD? (args.take 18)
+      let st ← parseSteps? (args.drop 18)
+      pure ("ok " ++ showRD (RDH.run d st).1)
   | "rd.ydayidx" => some ("ok " ++ showIntList ydayidx)
   | "rd.mk" => (parseKw? args).map (fun k => Py.showR showRD (mk k))
   | "rd.expr" => (evalRPN args []).map (Py.showR showRD)
